@@ -1,0 +1,17 @@
+//go:build verif
+
+package check
+
+import (
+	a "github.com/google/wuffs/lang/ast"
+)
+
+// VerifObserver, if non-nil, is called before each statement is bounds-checked
+// with a copy of the facts known at that point.
+var VerifObserver func(fn *a.Func, stmt *a.Node, facts []*a.Expr)
+
+func (q *checker) verifObserve(stmt *a.Node) {
+	if VerifObserver != nil {
+		VerifObserver(q.astFunc, stmt, append([]*a.Expr(nil), q.facts...))
+	}
+}
